@@ -396,9 +396,18 @@ func runAll(name string, comp Component, hs [][]string, outDir string) {
 		}
 		return rep.Violations[a].Line < rep.Violations[b].Line
 	})
-	if len(rep.Violations) > 200 {
-		rep.Violations = rep.Violations[:200]
+	// keep the report small, but never let one clause crowd out another property's findings: the earliest 40 failures of every
+	// (property, clause) pair are kept
+	perClause := map[string]int{}
+	kept := rep.Violations[:0]
+	for _, v := range rep.Violations {
+		k := v.Property + "/" + v.Clause
+		if perClause[k] < 40 {
+			perClause[k]++
+			kept = append(kept, v)
+		}
 	}
+	rep.Violations = kept
 	b, _ := json.MarshalIndent(rep, "", " ")
 	must(os.WriteFile(filepath.Join(outDir, "report.json"), b, 0o644))
 	if hangSeen.Load() {
